@@ -60,7 +60,11 @@ func opKey(s opSpec) string {
 		ks = append(ks, "ev:"+k+"="+v)
 	}
 	sort.Strings(ks)
-	return s.recv + "." + s.fn + "?" + strings.Join(ks, "&")
+	k := s.recv + "." + s.fn + "?" + strings.Join(ks, "&")
+	if s.kind == "moves" {
+		k += "#moves" // analysed with the policy's helper loops inlined: a summary of its own
+	}
+	return k
 }
 
 func (cx *Ctx) runOp(rule string, spec opSpec) *opRun {
@@ -78,6 +82,14 @@ func (cx *Ctx) runOp(rule string, spec opSpec) *opRun {
 		// exceeds the enumeration bound (30000 after 2.4 M steps); these operations keep one iteration per loop in
 		// the thorough tier as well
 		ps.loopBound = 1
+	}
+	if spec.kind == "moves" {
+		// the transfer loops may live in helpers split off the climbing functions: inline them together with their loops
+		for _, f := range cx.P.FuncsOfPkg("") {
+			if f.Parent() == nil && f.Signature.Recv() != nil && namedTypeName(f.Signature.Recv().Type()) == "policy" && origin(f) != origin(fn) {
+				ps.inlineLoops[origin(f)] = true
+			}
+		}
 	}
 	for k, kind := range spec.events {
 		parts := strings.Split(k, ".")
